@@ -63,6 +63,9 @@ PROPS = {
         'modelled_not_verified': ["as C01"],
         'assumptions': ["the reference lexer in Lean (SqlairModel/Lexer.lean) is the specification of literal/comment regions"],
     },
+    'C09': {'layers': ['l5'], 'modelled_not_verified': ["per-connection re-prepare of an sql.Stmt is database/sql's (exact logs use one pooled connection; several connections are checked by invariants)"], 'assumptions': []},
+    'C10': {'layers': ['l5'], 'modelled_not_verified': ["which objects the Go runtime considers reachable (liveness of the Query closure's captured Statement/DB, Iterator->driverStmt edge) and finalizer scheduling are the enabling conditions of the finalizer steps: an assumption, sampled by forced-GC histories"], 'assumptions': []},
+    'C11': {'layers': ['l5'], 'modelled_not_verified': ["as C10", "database/sql defers the driver-level close until dependent rows are closed"], 'assumptions': []},
     'C12': {'layers': ['l4', 'sqlite'], 'modelled_not_verified': ["sql.Tx (done flag, connection pinning, Tx.Stmt, closing open rows at the end) is an environment model validated by the L4 correspondence"], 'assumptions': ["Commit makes all take effect together / Rollback none is the engine's transaction semantics given the bracket; observed with real SQLite, not proved"]},
     'C13': {'layers': ['l4'], 'modelled_not_verified': ["database/sql pool (InUse), Rows auto-close on EOF/error, driver ErrBadConn retry (not modelled, not generated)"], 'assumptions': []},
     'C14': {'layers': ['l4'], 'modelled_not_verified': ["sql.Rows (lasterr, Close, Err, Scan ordering) is an environment model validated by the L4 correspondence"], 'assumptions': []},
@@ -154,5 +157,27 @@ CLAIMED['C18'] = {
     'technique': 'Lean 4 termination/totality proofs over the models + exhaustive-by-position value-zoo sweep under recover/watchdog',
     'design_ref': 'DESIGN.md section 5 C18',
 }
+
+CACHE_NOTE = "Trusted: Lean kernel; the cache model (SqlairModel/Cache.lean) is a hand port of cache.go and of the run closure as a transition system over atomic steps, validated per run by the L5 correspondence (sequential histories with forced GC to quiescence: driver log segments and cache content compared exactly through the verif cache-snapshot hook; concurrent runs with open iterators and GC at random points: invariants on the driver log). Partial: GC reachability is modelled by enabling conditions (DESIGN section 3, 10); data races below critical-section granularity are outside the model"
+
+CLAIMED.update({
+    'C09': {
+        'text': "Proved in Lean for every reachable state of the cache transition system, i.e. every interleaving of look-up / prepare / insert-evict / execute steps of any number of "
+                "operations on any Statements and DBs with finalizers firing anywhere: every execution uses a driver statement prepared from exactly that call's SQL on that call's DB; "
+                "a hit is sound; an unchanged query is reused without a prepare.",
+        'note': CACHE_NOTE, 'technique': 'Lean 4 proof (inductive invariant over atomic-step transition system = all interleavings) + history correspondence', 'design_ref': 'DESIGN.md section 5 C09',
+    },
+    'C10': {
+        'text': "Partial (GC liveness assumed). Proved in Lean for all interleavings and all placements of finalizer steps and reference drops: no execution ever targets a statement whose "
+                "Close was called; a statement held by an in-flight operation or an open Iterator is not closed at the driver.",
+        'note': CACHE_NOTE, 'technique': 'Lean 4 proof (invariant incl. GC enabling conditions) + forced-GC history correspondence', 'design_ref': 'DESIGN.md section 5 C10',
+    },
+    'C11': {
+        'text': "Partial (GC liveness assumed). Proved in Lean: index consistency (which makes the finalizers' unchecked map accesses safe), Close at most once per statement, and after "
+                "everything is dropped garbage collection to quiescence empties the cache and closes every driver statement exactly once; open statements are bounded by cached entries "
+                "plus evicted-but-held plus in-flight prepared ones (the sketched bound without the last term is false between prepare and insert: machine-checked witness).",
+        'note': CACHE_NOTE, 'technique': 'Lean 4 proof (invariant + termination measure of gc) + forced-GC history correspondence with cache snapshot hook', 'design_ref': 'DESIGN.md section 5 C11',
+    },
+})
 
 NOT_CLAIMED_REASON = {}
